@@ -286,6 +286,7 @@ fn run_episode(ep: &Value, epno: usize, cache: &mut HashMap<String, Vocab>, tr: 
     // engine 1; "fresh" builds engine 50 from scratch, replays the surviving history and observes
     if let Some(script) = ep["script"].as_array() {
         let mut hist: Vec<u32> = vec![];
+        let mut dfs_nodes = 0usize;
         for op in script {
             let name = op[0].as_str().unwrap_or("");
             let arg = op[1].as_u64().unwrap_or(0);
@@ -337,6 +338,14 @@ fn run_episode(ep: &Value, epno: usize, cache: &mut HashMap<String, Vocab>, tr: 
                         hist.clear();
                     }
                 }
+                // exhaustive walk: every string over the branch tokens up to the given depth that the masks allow;
+                // mask + accepting flag observed at every node (op = ["dfs", depth, [token ids], node budget])
+                "dfs" => {
+                    let branch: Vec<u32> = op[2].as_array().map(|a| a.iter().filter_map(|x| x.as_u64()).map(|x| x as u32).collect())
+                        .unwrap_or_default();
+                    let mut budget = op[3].as_u64().unwrap_or(1500) as usize;
+                    dfs(&mut s, arg as usize, &branch, &mut budget, &mut dfs_nodes);
+                }
                 "fresh" => {
                     s.new_engine(50, 0);
                     for &t in &hist.clone() {
@@ -353,7 +362,7 @@ fn run_episode(ep: &Value, epno: usize, cache: &mut HashMap<String, Vocab>, tr: 
             }
         }
         return json!({"compiled":1,"events":s.nev,"commits":hist.len(),"rollbacks":0,"len":hist.len(),"stopped":0,
-            "error": s.m(1).is_error() as u32});
+            "dfs_nodes": dfs_nodes, "error": s.m(1).is_error() as u32});
     }
     let mut hist: Vec<u32> = vec![];
     let mut shadows: Vec<u32> = vec![];
@@ -556,4 +565,32 @@ fn main() {
     }
     tr.flush();
     println!("{}", json!({"episodes": stats, "events": tr.n}));
+}
+
+
+fn dfs(s: &mut Session, depth: usize, branch: &[u32], budget: &mut usize, nodes: &mut usize) {
+    if *budget == 0 || s.m(1).is_error() {
+        return;
+    }
+    *budget -= 1;
+    *nodes += 1;
+    let stopped = s.m(1).is_stopped();
+    let mask = if stopped { None } else { s.mask(1) };
+    s.acc(1);
+    if depth == 0 {
+        return;
+    }
+    if let Some(ids) = mask {
+        for &t in branch {
+            if ids.contains(&t) {
+                if !s.consume(1, t) {
+                    return;
+                }
+                dfs(s, depth - 1, branch, budget, nodes);
+                if !s.rollback(1, 1) {
+                    return;
+                }
+            }
+        }
+    }
 }
